@@ -221,3 +221,36 @@ def replay_pyargs(ex, c, pyargs):
         verdict, detail = "undecided", str(e)
     info["verdict"], info["detail"] = verdict, detail
     return info
+
+
+SAFETY_EXC = {"index-in-range": "IndexError", "key-in-dict": "KeyError", "del:key-in-dict": "KeyError", "len-of-None": "TypeError",
+              "attribute-of-None": "AttributeError", "division-by-zero": "ZeroDivisionError", "list.remove(x):x-in-list": "ValueError",
+              "iteration-over-None": "TypeError", "order-compare-with-None": "TypeError", "in-on-None": "TypeError", "subscript-of-None": "TypeError",
+              "unpack-arity": "ValueError", "str-plus-nonstr": "TypeError"}
+
+def align(kind, info):
+    """A native run only counts as the replay of THIS obligation if it fails in the way the obligation says (same clause, same exception);
+    a reconstructed input that trips over something else (unmodelled state, assumed callees) is reported as not reproduced."""
+    if info.get("verdict") != "violates": return info
+    native = info.get("native") or []
+    raised = native[1].strip("'") if len(native) >= 2 and native[0] == "'raise'" else None
+    detail = info.get("detail", "")
+    ok = False
+    if kind.startswith("postcondition:"):
+        clause = kind[len("postcondition:"):]
+        ok = raised is None and clause[:60] in detail
+    elif kind.startswith("must-raise-"):
+        exc = kind[len("must-raise-"):].split(":")[0]
+        ok = raised != exc
+    elif kind.startswith("raises-") and kind.endswith("-only-when-allowed"):
+        ok = raised == kind[len("raises-"):-len("-only-when-allowed")]
+    elif kind in SAFETY_EXC:
+        ok = raised == SAFETY_EXC[kind]
+    elif kind.startswith("call-shape") or kind.startswith("returns-None"):
+        ok = raised == "TypeError" or kind.startswith("returns-None")
+    elif kind.startswith("decreases") or "terminat" in kind:
+        ok = native[:1] == ["'timeout'"]
+    if ok: return info
+    out = dict(info); out["verdict"] = "not-reproduced"
+    out["detail"] = "native run on the reconstructed input fails differently from the refuted obligation (%s): %s" % (kind[:60], detail[:300])
+    return out
